@@ -26,7 +26,7 @@
 From Gws Require Import Lib.Base Lib.Hex Model.Negotiate Spec.NegotiationSpec
   Proofs.StrProofs Proofs.NegotiateProofs Proofs.NegotiateAgree.
 From Coq Require Import Permutation Strings.String.
-From Gws Require Import Gen.Consts Gen.Funcs Proofs.GenFuncsProofs.
+From Gws Require Import Gen.Consts Gen.Funcs Proofs.GenOptionsProofs.
 Local Open Scope Z_scope.
 
 (* Agreement, for every pair of settings (all booleans, all integers). *)
